@@ -1,0 +1,378 @@
+//! Verification hooks (cargo feature `verif-hooks`, off by default).
+//!
+//! `SimPool` is the tx-pool service built exactly as `TxPoolServiceBuilder::start`
+//! builds it, except that none of its loops is spawned: the controller channels,
+//! the reorg channel, the block-assembler channel and the verify queue are handed
+//! to a deterministic simulator, which turns each queued item into a future and
+//! polls it itself. `yield_point` marks places where a simulator may suspend a
+//! task so that another one runs in between.
+use crate::block_assembler;
+use crate::component::orphan::OrphanPool;
+use crate::component::pool_map::Status;
+use crate::component::verify_queue::VerifyQueue;
+use crate::pool::TxPool;
+use crate::service::*;
+use ckb_network::NetworkController;
+use ckb_script::ChunkCommand;
+use ckb_types::core::tx_pool::Reject;
+use ckb_types::core::{Capacity, Cycle, TransactionView};
+use ckb_types::packed::{Byte32, OutPoint, ProposalShortId};
+use ckb_verification::cache::Completed;
+use std::future::Future;
+use std::pin::Pin;
+use std::sync::Arc;
+use std::sync::atomic::{AtomicBool, AtomicU64, Ordering};
+use std::task::{Context, Poll};
+use tokio::sync::{RwLock, mpsc, watch};
+
+/// Boxed task future.
+pub type BoxFut<T> = Pin<Box<dyn Future<Output = T> + Send>>;
+
+static YIELD_ARMED: AtomicBool = AtomicBool::new(false);
+static YIELDED: AtomicU64 = AtomicU64::new(0);
+
+/// While armed, every `yield_point` returns `Pending` once.
+pub fn arm_yield(v: bool) {
+    YIELD_ARMED.store(v, Ordering::SeqCst);
+}
+
+/// Number of times a task has suspended at a yield point so far.
+pub fn yield_count() -> u64 {
+    YIELDED.load(Ordering::SeqCst)
+}
+
+/// Future returned by `yield_point`.
+pub struct YieldOnce(bool, #[allow(dead_code)] &'static str);
+
+impl Future for YieldOnce {
+    type Output = ();
+    fn poll(mut self: Pin<&mut Self>, cx: &mut Context<'_>) -> Poll<()> {
+        if !self.0 && YIELD_ARMED.load(Ordering::SeqCst) {
+            self.0 = true;
+            YIELDED.fetch_add(1, Ordering::SeqCst);
+            cx.waker().wake_by_ref();
+            Poll::Pending
+        } else {
+            Poll::Ready(())
+        }
+    }
+}
+
+/// A place where the simulator may switch to another task.
+pub fn yield_point(tag: &'static str) -> YieldOnce {
+    YieldOnce(false, tag)
+}
+
+/// One pool entry as the pool reports it.
+#[derive(Clone, Debug)]
+pub struct EntryDump {
+    /// proposal short id
+    pub id: ProposalShortId,
+    /// the transaction
+    pub tx: TransactionView,
+    /// 0 pending, 1 gap, 2 proposed
+    pub status: u8,
+    /// verified cycles
+    pub cycles: Cycle,
+    /// serialized size in block
+    pub size: usize,
+    /// fee
+    pub fee: Capacity,
+    /// (count, size, cycles, fee) over self + in-pool ancestors
+    pub ancestors: (usize, usize, Cycle, Capacity),
+    /// (count, size, cycles, fee) over self + in-pool descendants
+    pub descendants: (usize, usize, Cycle, Capacity),
+    /// entry timestamp
+    pub timestamp: u64,
+}
+
+/// Everything the pool keeps about its contents.
+#[derive(Clone, Debug, Default)]
+pub struct PoolDump {
+    /// entries
+    pub entries: Vec<EntryDump>,
+    /// (id, parents, children)
+    pub links: Vec<(ProposalShortId, Vec<ProposalShortId>, Vec<ProposalShortId>)>,
+    /// input edges
+    pub inputs: Vec<(OutPoint, ProposalShortId)>,
+    /// dep edges
+    pub deps: Vec<(OutPoint, Vec<ProposalShortId>)>,
+    /// header-dep edges
+    pub header_deps: Vec<(ProposalShortId, Vec<Byte32>)>,
+    /// incrementally maintained totals
+    pub total_tx_size: usize,
+    /// incrementally maintained totals
+    pub total_tx_cycles: Cycle,
+    /// per-status counters
+    pub counts: (usize, usize, usize),
+    /// tip of the snapshot the pool resolves against
+    pub snapshot_tip: Byte32,
+    /// configured limits (max_tx_pool_size, max_ancestors_count, min_rbf_rate, min_fee_rate)
+    pub limits: (usize, usize, u64, u64),
+    /// verify queue length
+    pub verify_queue_len: usize,
+    /// orphan pool length
+    pub orphan_len: usize,
+}
+
+/// The tx-pool service without its loops.
+pub struct SimPool {
+    service: TxPoolService,
+    receiver: mpsc::Receiver<Message>,
+    reorg_receiver: mpsc::Receiver<Notify<ChainReorgArgs>>,
+    ba_receiver: mpsc::Receiver<BlockAssemblerMessage>,
+    chunk_rx: watch::Receiver<ChunkCommand>,
+}
+
+impl TxPoolServiceBuilder {
+    /// Build the service like `start` does, spawn nothing.
+    pub fn verif_into_sim(self, network: NetworkController) -> SimPool {
+        let consensus = self.snapshot.cloned_consensus();
+        let verify_queue = Arc::new(RwLock::new(VerifyQueue::new(
+            self.tx_pool_config.max_tx_verify_cycles,
+        )));
+        let tx_pool = TxPool::new(self.tx_pool_config, self.snapshot);
+        let (block_assembler_sender, ba_receiver) = self.block_assembler_channel;
+        let service = TxPoolService {
+            tx_pool_config: Arc::new(tx_pool.config.clone()),
+            tx_pool: Arc::new(RwLock::new(tx_pool)),
+            orphan: Arc::new(RwLock::new(OrphanPool::new())),
+            block_assembler: self.block_assembler,
+            txs_verify_cache: self.txs_verify_cache,
+            callbacks: Arc::new(self.callbacks),
+            tx_relay_sender: self.tx_relay_sender,
+            block_assembler_sender,
+            verify_queue,
+            network,
+            consensus,
+            fee_estimator: self.fee_estimator,
+        };
+        self.started.store(true, Ordering::Release);
+        SimPool {
+            service,
+            receiver: self.receiver,
+            reorg_receiver: self.reorg_receiver,
+            ba_receiver,
+            chunk_rx: self.chunk_rx,
+        }
+    }
+}
+
+impl SimPool {
+    /// Next message queued through the `TxPoolController`, as (kind, task).
+    pub fn next_message(&mut self) -> Option<(&'static str, BoxFut<()>)> {
+        let m = self.receiver.try_recv().ok()?;
+        let kind = match &m {
+            Message::UpdateIBDState(_) => "update_ibd_state",
+            Message::SubmitLocalTx(_) => "submit_local_tx",
+            Message::SubmitRemoteTx(_) => "submit_remote_tx",
+            Message::BlockTemplate(_) => "block_template",
+            Message::NewUncle(_) => "new_uncle",
+            Message::ClearPool(_) => "clear_pool",
+            Message::RemoveLocalTx(_) => "remove_local_tx",
+            Message::TestAcceptTx(_) => "test_accept_tx",
+            _ => "query",
+        };
+        let s = self.service.clone();
+        Some((kind, Box::pin(verif_process(s, m))))
+    }
+
+    /// Next chain-reorg notification as a task (same three steps as the service loop).
+    pub fn next_reorg(&mut self) -> Option<BoxFut<()>> {
+        let Notify {
+            arguments: (detached_blocks, attached_blocks, detached_proposal_id, snapshot),
+        } = self.reorg_receiver.try_recv().ok()?;
+        let service = self.service.clone();
+        Some(Box::pin(async move {
+            service
+                .update_block_assembler_before_tx_pool_reorg(
+                    detached_blocks.clone(),
+                    Arc::clone(&snapshot),
+                )
+                .await;
+            yield_point("reorg.before_pool").await;
+            service
+                .update_tx_pool_for_reorg(
+                    detached_blocks,
+                    attached_blocks,
+                    detached_proposal_id,
+                    Arc::clone(&snapshot),
+                )
+                .await;
+            yield_point("reorg.after_pool").await;
+            service.update_block_assembler_after_tx_pool_reorg().await;
+        }))
+    }
+
+    /// Next block-assembler message as a task.
+    pub fn next_block_assembler(&mut self) -> Option<BoxFut<()>> {
+        let m = self.ba_receiver.try_recv().ok()?;
+        let s = self.service.clone();
+        Some(Box::pin(async move { block_assembler::process(s, &m).await }))
+    }
+
+    /// One iteration of a verify worker: pop the next queued transaction, verify and submit it.
+    /// Resolves to false when the queue is empty.
+    pub fn next_verify(&self) -> BoxFut<bool> {
+        let service = self.service.clone();
+        let mut command_rx = self.chunk_rx.clone();
+        Box::pin(async move {
+            let entry = {
+                let mut tasks = service.verify_queue.write().await;
+                match tasks.pop_front(false) {
+                    Some(e) => e,
+                    None => return false,
+                }
+            };
+            if let Some((res, snapshot)) = service
+                ._process_tx(
+                    entry.tx.clone(),
+                    entry.remote.map(|e| e.0),
+                    Some(&mut command_rx),
+                )
+                .await
+            {
+                service
+                    .after_process(entry.tx, entry.remote, &snapshot, &res)
+                    .await;
+            }
+            true
+        })
+    }
+
+    /// What `Message::SubmitLocalTx` does, without the controller round trip.
+    pub fn submit_local_tx(&self, tx: TransactionView) -> BoxFut<Result<Completed, Reject>> {
+        let s = self.service.clone();
+        Box::pin(async move { s.process_tx(tx, None).await })
+    }
+
+    /// What `Message::SubmitRemoteTx` does: enqueue for the verify workers.
+    pub fn submit_remote_tx(
+        &self,
+        tx: TransactionView,
+        declared_cycles: Cycle,
+        peer: ckb_network::PeerIndex,
+    ) -> BoxFut<Result<bool, Reject>> {
+        let s = self.service.clone();
+        Box::pin(async move {
+            s.resumeble_process_tx(tx, false, Some((declared_cycles, peer)))
+                .await
+        })
+    }
+
+    /// What `Message::TestAcceptTx` does.
+    pub fn test_accept_tx(&self, tx: TransactionView) -> BoxFut<Result<Completed, Reject>> {
+        let s = self.service.clone();
+        Box::pin(async move { s.test_accept_tx(tx).await })
+    }
+
+    /// What `Message::RemoveLocalTx` does.
+    pub fn remove_tx(&self, tx_hash: Byte32) -> BoxFut<bool> {
+        let s = self.service.clone();
+        Box::pin(async move { s.remove_tx(tx_hash).await })
+    }
+
+    /// What `Message::BlockTemplate` does.
+    pub fn get_block_template(
+        &self,
+    ) -> BoxFut<Result<ckb_jsonrpc_types::BlockTemplate, ckb_error::AnyError>> {
+        let s = self.service.clone();
+        Box::pin(async move { s.get_block_template().await })
+    }
+
+    /// Remove expired transactions now (the body of the periodic expiry in `limit_size` paths).
+    pub fn remove_expired(&self) -> BoxFut<()> {
+        let s = self.service.clone();
+        Box::pin(async move {
+            let mut pool = s.tx_pool.write().await;
+            pool.remove_expired(&s.callbacks);
+        })
+    }
+
+    /// Read-only dump of the pool's bookkeeping.
+    pub fn dump(&self) -> BoxFut<PoolDump> {
+        let s = self.service.clone();
+        Box::pin(async move {
+            let pool = s.tx_pool.read().await;
+            let pm = &pool.pool_map;
+            let entries = pm
+                .entries
+                .iter()
+                .map(|(_, e)| EntryDump {
+                    id: e.id.clone(),
+                    tx: e.inner.transaction().clone(),
+                    status: match e.status {
+                        Status::Pending => 0,
+                        Status::Gap => 1,
+                        Status::Proposed => 2,
+                    },
+                    cycles: e.inner.cycles,
+                    size: e.inner.size,
+                    fee: e.inner.fee,
+                    ancestors: (
+                        e.inner.ancestors_count,
+                        e.inner.ancestors_size,
+                        e.inner.ancestors_cycles,
+                        e.inner.ancestors_fee,
+                    ),
+                    descendants: (
+                        e.inner.descendants_count,
+                        e.inner.descendants_size,
+                        e.inner.descendants_cycles,
+                        e.inner.descendants_fee,
+                    ),
+                    timestamp: e.inner.timestamp,
+                })
+                .collect();
+            let links = pm
+                .links
+                .inner
+                .iter()
+                .map(|(id, l)| {
+                    (
+                        id.clone(),
+                        l.parents.iter().cloned().collect(),
+                        l.children.iter().cloned().collect(),
+                    )
+                })
+                .collect();
+            let inputs = pm
+                .edges
+                .inputs
+                .iter()
+                .map(|(k, v)| (k.clone(), v.clone()))
+                .collect();
+            let deps = pm
+                .edges
+                .deps
+                .iter()
+                .map(|(k, v)| (k.clone(), v.iter().cloned().collect()))
+                .collect();
+            let header_deps = pm
+                .edges
+                .header_deps
+                .iter()
+                .map(|(k, v)| (k.clone(), v.clone()))
+                .collect();
+            PoolDump {
+                entries,
+                links,
+                inputs,
+                deps,
+                header_deps,
+                total_tx_size: pm.total_tx_size,
+                total_tx_cycles: pm.total_tx_cycles,
+                counts: (pm.pending_count, pm.gap_count, pm.proposed_count),
+                snapshot_tip: pool.snapshot.tip_hash(),
+                limits: (
+                    pool.config.max_tx_pool_size,
+                    pool.config.max_ancestors_count,
+                    pool.config.min_rbf_rate.as_u64(),
+                    pool.config.min_fee_rate.as_u64(),
+                ),
+                verify_queue_len: s.verify_queue.read().await.len(),
+                orphan_len: s.orphan.read().await.len(),
+            }
+        })
+    }
+}
